@@ -26,6 +26,35 @@ def gen(tier):
             add('Shl_%s_%s' % (t, c), [('x', t), ('y', c)], t, 'x << y', 'shift')
             add('Shr_%s_%s' % (t, c), [('x', t), ('y', c)], t, 'x >> y', 'shift')
             add('Conv_%s_%s' % (t, c), [('x', t)], c, '%s(x)' % c, 'conv')
+    # one constant operand: ssa/expr.go has shortcuts that drop guards when an operand is a
+    # go/ssa constant (zero-divisor test, MinInt / -1 select, shift-count test)
+    def bits(t):
+        return {'int8': 8, 'int16': 16, 'int32': 32, 'int64': 64, 'int': 64, 'uint8': 8, 'uint16': 16, 'uint32': 32, 'uint64': 64, 'uint': 64, 'uintptr': 64}[t]
+
+    def cname(v):
+        return ('m%d' % -v) if v < 0 else str(v)
+    for t in INTS:
+        b = bits(t)
+        signed = not t.startswith('u')
+        if signed:
+            lo, hi = -(1 << (b - 1)), (1 << (b - 1)) - 1
+            left, right = [lo, -1, 0, 1, hi], [lo, -1, 1, hi]
+        else:
+            lo, hi = 0, (1 << b) - 1
+            left, right = [0, 1, hi], [1, hi]
+        for n, op in (('Div', '/'), ('Rem', '%')):
+            for c in left:
+                add('%sCL_%s_%s' % (n, t, cname(c)), [('y', t)], t, '%s(%d) %s y' % (t, c, op), 'arith-const')
+            for c in right:
+                add('%sCR_%s_%s' % (n, t, cname(c)), [('x', t)], t, 'x %s %s(%d)' % (op, t, c), 'arith-const')
+        for c in ([lo, -1] if signed else [hi]):
+            add('MulC_%s_%s' % (t, cname(c)), [('x', t)], t, 'x * %s(%d)' % (t, c), 'arith-const')
+        for n, op in (('Shl', '<<'), ('Shr', '>>')):
+            for k in sorted({0, 1, b - 1, b, b + 1, 64, 255}):
+                add('%sCK_%s_%d' % (n, t, k), [('x', t)], t, 'x %s %d' % (op, k), 'shift-const')
+            for c in ([lo, -1, 1] if signed else [1, hi]):
+                for ct in ['uint8', 'int64', 'uint64']:
+                    add('%sCX_%s_%s_%s' % (n, t, cname(c), ct), [('y', ct)], t, '%s(%d) %s y' % (t, c, op), 'shift-const')
     add('LNot_bool', [('x', 'bool')], 'bool', '!x', 'unary')
     for t in FLOATS:
         for n, op in {'Add': '+', 'Sub': '-', 'Mul': '*', 'Div': '/'}.items():
